@@ -87,8 +87,15 @@ def _tape_out(c, used):
     return {'rng_used': min(used, n), 'rng_over': max(0, used - n)}
 
 # ------------------------------------------------------------------ reference bindings
+def _expected(c):
+    """sweep cases (C09) carry the documented result of the rule they violate"""
+    e = c['_expect']
+    return {'ret': NONZERO if e == 'nonzero' else e}
+
 def _ref(f):
     def ref(c):
+        if '_expect' in c:
+            return _expected(c)
         l = level_of(c)
         if l is None:
             return None
@@ -189,6 +196,17 @@ def _d_nonce(fname):
                 out.append(('one-time key k', enc(l, R.gen_k(l, case['oid_der'], case['privkey'], case['hash'], case.get('t')))))
             if fname == 'bignIdSign2':
                 out.append(('one-time key k', enc(l, R.gen_k(l, case['oid_der'], case['id_privkey'], case['hash'], case.get('t')))))
+            ps, Ec, G, q, _ = R._ctx(l)
+            if fname == 'bignKeyWrap':              # key protection key theta = <x(kQ)>_256
+                k, _ = R.rand_nz(l, _full_tape(case, no)[1])
+                Qp = R._as_point(l, case['pubkey'])
+                if k and Ec.is_on(Qp):
+                    out.append(('key protection key theta', enc(l, Ec.mul(k, Qp)[0])[:32]))
+            if fname == 'bignKeyUnwrap':            # theta = <x(dR)>_256
+                x, d = dec(case['token'][:no]), dec(case['privkey'])
+                pts = Ec.lift_x(x) if x < ps['p'] else []
+                if pts and 0 < d < q:
+                    out.append(('key protection key theta', enc(l, Ec.mul(d, pts[0])[0])[:32]))
         except Exception:
             pass
         for nm in {'bignKeypairGen': ('privkey',), 'bignDH': ('key',), 'bignKeyUnwrap': ('key',), 'bignIdExtract': ('id_privkey',)}.get(fname, ()):
@@ -655,4 +673,81 @@ def auth_cases(tier):
             if hdr:
                 for bi, m in flips(hdr, False):
                     out.append(('bignKeyUnwrap', c_unwrap(l, tok, m, d), key, 'header', bi))
+    return out
+
+def sweep_cases(tier):
+    """C09 argument sweeps: out-of-domain levels / lengths / keys / identifiers / NULL pointers; '_expect' is the result bign.h documents
+    for the violated rule (\\expect{ERR_...}; 'nonzero' where the header only says "an error code")"""
+    out = []
+    def X(fn, c, code, **kw):
+        out.append((fn, dict(c, _expect=code, **kw)))
+    for l in (LEVELS if tier == 'thorough' else (128, 256)):
+        no = l // 4; q = q_of(l); top = (1 << (2 * l)) - 1
+        d = d_alphabet(l)[4][1]; k = k_alphabet(l)[0][1]; H = h_alphabet(l)[6][1]; H0 = h_alphabet(l)[7][1]
+        Q = pub(l, d); PB = params_bytes(l)
+        sig = R.sign_k(l, OID_BELT, H, d, k)
+        tok = R.key_wrap_k(l, keydata(32), None, Q, k)
+        e = dec(sig[no // 2:]) + dec(H) % q
+        e %= q
+        Rb = encp(l, mulG(l, k))
+        isig = R.id_sign_k(l, OID_BELT, H, H0, e, k)
+        base = {'bignKeypairGen': dict(params=PB, rng=enc(l, d)), 'bignKeypairVal': dict(params=PB, privkey=enc(l, d), pubkey=Q),
+                'bignPubkeyVal': dict(params=PB, pubkey=Q), 'bignPubkeyCalc': dict(params=PB, privkey=enc(l, d)),
+                'bignDH': dict(params=PB, privkey=enc(l, d), pubkey=Q, key_len=no), 'bignSign': c_sign(l, OID_BELT, H, d, enc(l, k)),
+                'bignSign2': c_sign2(l, OID_BELT, H, d, None), 'bignVerify': c_verify(l, OID_BELT, H, sig, Q),
+                'bignKeyWrap': c_wrap(l, keydata(32), None, Q, enc(l, k)), 'bignKeyUnwrap': c_unwrap(l, tok, None, d),
+                'bignIdExtract': c_idextract(l, OID_BELT, H, sig, Q), 'bignIdSign': c_idsign(l, OID_BELT, H, H0, e, enc(l, k)),
+                'bignIdSign2': c_idsign2(l, OID_BELT, H, H0, e, None), 'bignIdVerify': c_idverify(l, OID_BELT, H, H0, isig, Rb, Q)}
+        # level outside {128, 192, 256}, inconsistent level, unusable parameters -> ERR_BAD_PARAMS
+        bad_l = [0, 1, 100, l - 1, l + 1, 512, (1 << 32) + l] + [x for x in LEVELS if x != l]
+        for fn, c in base.items():
+            for v in (bad_l if fn in ('bignSign', 'bignVerify', 'bignKeyUnwrap') else bad_l[:3] + bad_l[-1:]):
+                X(fn, c, E['BAD_PARAMS'], params=int(v).to_bytes(8, 'little') + PB[8:])
+            X(fn, c, E['BAD_PARAMS'], params=PB[:8] + bytes(len(PB) - 8))
+            X(fn, c, E['BAD_INPUT'], params=None)
+        for v in bad_l:
+            X('bignParamsVal', dict(params=int(v).to_bytes(8, 'little') + PB[8:]), 'nonzero')
+        # private keys outside [1, q-1] ([0, q-1] for the identity key) -> ERR_BAD_PRIVKEY
+        for v in (0, q, q + 1, top):
+            for fn in ('bignPubkeyCalc', 'bignDH', 'bignSign', 'bignSign2', 'bignKeyUnwrap'):
+                X(fn, base[fn], E['BAD_PRIVKEY'], privkey=enc(l, v))
+            X('bignKeypairVal', base['bignKeypairVal'], 'nonzero', privkey=enc(l, v))
+            if v:
+                for fn in ('bignIdSign', 'bignIdSign2'):
+                    X(fn, base[fn], E['BAD_PRIVKEY'], id_privkey=enc(l, v))
+        # lengths
+        for n in (2 * no + 1, 2 * no + 16, 4 * no, 1000):
+            X('bignDH', base['bignDH'], E['BAD_SHAREDKEY'], key_len=n)
+        for n in (0, 1, 15):
+            X('bignKeyWrap', base['bignKeyWrap'], E['BAD_INPUT'], key=keydata(16)[:n])
+        for n in (0, 1, no, no + 16, no + 31):
+            X('bignKeyUnwrap', base['bignKeyUnwrap'], E['BAD_KEYTOKEN'], token=tok[:n])
+        # identifiers that are not the DER code of an OID -> ERR_BAD_OID
+        o = OID_BELT
+        bad_oids = [('empty', b''), ('tag only', o[:1]), ('no value', o[:2]), ('truncated', o[:-1]), ('trailing octet', o + b'\x00'), ('wrong tag', b'\x04' + o[1:]),
+                    ('zero length', b'\x06\x00'), ('leading 0x80', o[:2] + b'\x80' + o[3:]), ('arc > 2^32-1', b'\x06\x06\x2a\x90\x80\x80\x80\x00'),
+                    ('length beyond the buffer', b'\x06\x7f' + o[2:]), ('last sub-identifier not terminated', o[:-1] + bytes([o[-1] | 0x80]))]
+        for fn in ('bignSign', 'bignSign2', 'bignVerify', 'bignIdExtract', 'bignIdSign', 'bignIdSign2', 'bignIdVerify'):
+            for n, v in (bad_oids if fn in ('bignSign', 'bignVerify') else bad_oids[:1] + bad_oids[3:6]):
+                X(fn, base[fn], E['BAD_OID'], oid_der=v)
+        # public keys with a coordinate >= p -> ERR_BAD_PUBKEY where bign.h asks for a correct public key
+        p = p_of(l)
+        for n, Qm in (('x=p', enc(l, p) + Q[no:]), ('y=p', Q[:no] + enc(l, p)), ('max', b'\xff' * (2 * no))):
+            for fn in ('bignDH', 'bignVerify', 'bignKeyWrap', 'bignIdExtract', 'bignIdVerify'):
+                X(fn, base[fn], E['BAD_PUBKEY'], pubkey=Qm)
+            X('bignIdVerify', base['bignIdVerify'], E['BAD_PUBKEY'], id_pubkey=Qm)
+            X('bignPubkeyVal', base['bignPubkeyVal'], 'nonzero', pubkey=Qm)
+        # NULL for non-optional pointers -> ERR_BAD_INPUT ("all input pointers are valid", section bign-common)
+        for fn, fields in (('bignSign', ('hash', 'privkey')), ('bignSign2', ('hash', 'privkey')), ('bignVerify', ('hash', 'sig', 'pubkey')),
+                           ('bignKeypairVal', ('privkey', 'pubkey')), ('bignPubkeyVal', ('pubkey',)), ('bignPubkeyCalc', ('privkey',)), ('bignDH', ('privkey', 'pubkey')),
+                           ('bignKeyWrap', ('pubkey',)), ('bignKeyUnwrap', ('privkey',)), ('bignIdExtract', ('id_hash', 'sig', 'pubkey')),
+                           ('bignIdSign', ('id_hash', 'hash', 'id_privkey')), ('bignIdSign2', ('id_hash', 'hash', 'id_privkey')),
+                           ('bignIdVerify', ('id_hash', 'hash', 'id_sig', 'id_pubkey', 'pubkey'))):
+            for f in fields:
+                X(fn, base[fn], E['BAD_INPUT'], **{f: None})
+        X('bignKeyWrap', base['bignKeyWrap'], E['BAD_INPUT'], key=None, key_len=32)
+        X('bignKeyUnwrap', base['bignKeyUnwrap'], E['BAD_INPUT'], token=None, token_len=len(tok))
+        X('bignSign2', base['bignSign2'], E['BAD_INPUT'], t=None, t_len=5)
+    for s_ in OID_STRINGS_BAD:
+        out.append(('bignOidToDER', dict(oid=s_)))
     return out
